@@ -52,12 +52,15 @@ type vfC30Case struct {
 
 // ---------------------------------------------------------------- worker side
 
+// vfC30Drain: the queued operations (startTransports blocks in ICE until the connection is
+// closed, then startRTP still runs) finish only once the connection is closed; GracefulClose
+// waits for them, so a panic in the operations goroutine happens before the case is reported done.
 func vfC30Drain(pc *PeerConnection) {
 	done := make(chan struct{})
-	go func() { pc.ops.Done(); close(done) }()
+	go func() { _ = pc.GracefulClose(); close(done) }()
 	select {
 	case <-done:
-	case <-time.After(5 * time.Second):
+	case <-time.After(20 * time.Second):
 	}
 }
 
